@@ -20,6 +20,7 @@ class Harness:
         self.file, self.module, self.group, self.size, self.fn = file, module, group, size, fn
         self.props, self.tier, self.spin_violation, self.asserts = props, tier, spin_violation, asserts
         self.jobs = 16
+        self.contract = False     # `// @props ... contract`: proof_for_contract of an in-place kani::ensures, or a harness using stub_verified
         self.submodule = "proofs"
 
     @property
@@ -65,7 +66,7 @@ def _load_registry():
                 toks = m.group(1).split()
                 pending = {"props": [t for t in toks if re.fullmatch(r"C\d+", t)],
                            "tier": next((t.split("=")[1] for t in toks if t.startswith("tier=")), "quick"),
-                           "spin": any(t == "spin=violation" for t in toks)}
+                           "spin": any(t == "spin=violation" for t in toks), "contract": any(t == "contract" for t in toks)}
                 continue
             m = re.match(r"(?:pub(?:\(crate\))?\s+)?fn\s+(\w+)\s*\(", s)
             if m and pending is not None:
@@ -90,6 +91,7 @@ def _load_registry():
                 else:
                     out.append(Harness(file, module, None, None, fn, pending["props"], pending["tier"], pending["spin"], asserts))
                     out[-1].jobs = file_jobs if pending["tier"] == "quick" else file_jobs_thorough
+                    out[-1].contract = pending["contract"]
                 pending = None
     return out
 
